@@ -135,6 +135,8 @@ func verifReadCall(c *connection, n int, vt *verifTimer, label string) {
 	if err == nil {
 		atomic.AddInt32(&verifK.consumed, int32(n))
 		verifAssert(int(atomic.LoadInt32(&verifK.delivered)) >= int(atomic.LoadInt32(&verifK.consumed)), label+"/success-without-enough-bytes")
+		// the reader releases what it has read (Release adjusts maxSize under the slot token)
+		c.Release()
 		return
 	}
 	closedBy := atomic.LoadInt32(&c.keychain[closing])
